@@ -35,6 +35,19 @@ def handle (args : List String) : String :=
   | ["swap", a, b] => match parseG a, parseG b with
     | some a, some b => let r := swap fixedF a b; s!"{showG r.1} {showG r.2}"
     | _, _ => "bad-op"
+  | ["probe", ps, cs, a, b] =>
+    -- ps: minInter,minPka,maxPka,maxEdiff,minShift,maxIntr,ph('v' = variable)   cs: c0,c1,c2,c3,i1,i2
+    match (ps.splitOn ",").take 6 |>.mapM ofBits?, (cs.splitOn ",").mapM ofBits?, parseG a, parseG b with
+    | some [mi, mnp, mxp, me, ms, mx], some [c0, c1, c2, c3, i1, i2], some a, some b =>
+      let phs := (ps.splitOn ",").getD 6 "v"
+      let p : ProbeP Float := ⟨mi, mnp, mxp, me, ms, mx, if phs == "v" then none else ofBits? phs⟩
+      let energy := fun (ph : Float) (x y : GRec Float) => c0 + c1 * x.pka + c2 * y.pka + c3 * ph
+      let r := probe fixedF p energy i1 i2 a b
+      let res := match r.2 with
+        | none => "rejected"
+        | some q => ",".intercalate ([q.defaultE, q.swappedE, q.inter, q.sp1, q.sp2, q.sh1, q.sh2, q.ph, q.fE, q.fP, q.fI].map fbits)
+      s!"{showG r.1.1} {showG r.1.2} {res}"
+    | _, _, _, _ => "bad-op"
   | ["remove", labels, g] => match parseG g with
     | some g =>
       let ls := if labels == "-" then [] else (labels.splitOn ",").map unhexS
